@@ -26,18 +26,13 @@ def op_key(op):
 
 
 def norm_text(s, keep_addr=False):
-    """The two deliberate, narrow relaxations of DESIGN §3.4: memory addresses inside messages and
-    id()-derived temporary table aliases are renamed by first occurrence."""
+    """The one deliberate, narrow relaxation of DESIGN §3.4: memory addresses inside messages of third-party exceptions.
+    (Until round 16 id()-derived `t_<id>` names were renamed by first occurrence too.  No observable of the pinned tree
+    contains one -- the planner uses them internally only -- so the renaming relaxed nothing there and hid a seeded change that
+    lets such a name reach a plan step: an address in a result is exactly the dependence C20 forbids.  Removed.)"""
     if not keep_addr:
         s = _ADDR.sub('0xADDR', s)
-    seen = {}
-
-    def rep(m):
-        k = m.group(1)
-        if k not in seen:
-            seen[k] = 't_ID%d' % len(seen)
-        return seen[k]
-    return _TID.sub(rep, s)
+    return s
 
 
 def exc_obs(e):
